@@ -3,7 +3,7 @@ uniform re-base, heap order, join_all placement, adapters push back)."""
 import re
 
 from lib_facts import place_str, fn_name, callee_matches
-from lib_flow import (strip_refs, expr_calls, expr_str, variant_facts, feasible_cfg, enumerate_paths, must_pass_flags,
+from lib_flow import (sensitive_paths, strip_refs, expr_calls, expr_str, variant_facts, feasible_cfg, enumerate_paths, must_pass_flags,
                       flag_search)
 from lib_inter import returned_exprs
 from roles import roles, direct_sites, callee_body, reaches, RE_STREAM_POLL_NEXT
@@ -206,6 +206,11 @@ def r4_1(ctx, R, otypes):
                     e = fl.rvalue_expr(s_["rv"], bb)
                     ie = strip_refs(e[2][e[3].index("index")])
                     ok = ie[0] == "proj" and ie[2] and ie[2][-1] == ".index" and strip_refs(ie[1]) == ("param", 1)
+                    if not ok and ie[0] == "proj" and ".index" in ie[2]:
+                        # read through the pin projection of self: project(self).index (a reference to the field)
+                        base = strip_refs(ie[1])
+                        ok = base[0] == "call" and re.search(r"::project(_ref)?$", base[1] or "") is not None and \
+                            strip_refs(base[2][0]) == ("param", 1) and all(el in (".index", "*") for el in ie[2])
                     n += 1
                     kinds["carry"] = kinds.get("carry", 0) + 1
                     ctx.ob("R4.1", b, "output-wrapper-carries-its-future's-index", ok, b.loc(bb), expr_str(ie))
@@ -357,21 +362,46 @@ def r4_2(ctx, R, otypes):
                 det = expr_str(v)
                 if v[0] == "proj" and v[2][-1] == ".data":
                     item = v[1] if len(v[2]) == 1 else ("proj", v[1], v[2][:-1])
-                    # find dominating Eq true edge on the same item
-                    for sb in range(b.n):
-                        for tgt, labs in fl.edge_labels(sb).items():
-                            for lab in labs:
-                                if lab[0] == "bool" and lab[2] is True and lab[1][0] == "binop" and lab[1][1] == "Eq" \
-                                        and b.dominates(tgt, rb) and len(b.pred[tgt]) == 1:
-                                    a, c = lab[1][2], lab[1][3]
-                                    for x, y in ((a, c), (c, a)):
-                                        if counter_of(ctx, b, y, w) == o and x[0] == "proj" and x[2][-1] == ".index" and \
-                                                _same_item(x, item):
-                                            incs = [ib for ib, it, ifn in direct_sites(b, RE_ADD_ASSIGN)
-                                                    if counter_of(ctx, b, fl.operand_expr(it["args"][0]), w) == o
-                                                    and b.dominates(tgt, ib) and b.dominates(ib, rb)]
-                                            ok = len(incs) == 1
-                                            det = "Eq edge bb%d; outgoing+=1 sites between: %s" % (tgt, [b.loc(i) for i in incs])
+                    inc_sites = {ib for ib, it, ifn in direct_sites(b, RE_ADD_ASSIGN)
+                                 if counter_of(ctx, b, fl.operand_expr(it["args"][0]), w) == o}
+
+                    def in_turn(lab):
+                        if not (lab[0] == "bool" and lab[1][0] == "binop" and ((lab[1][1] == "Eq" and lab[2] is True) or (lab[1][1] == "Ne" and lab[2] is False))):
+                            return False
+                        a, c = lab[1][2], lab[1][3]
+                        for x, y in ((a, c), (c, a)):
+                            if counter_of(ctx, b, y, w) == o and x[0] == "proj" and x[2][-1] == ".index" and _same_item(x, item):
+                                return True
+                        return False
+                    # on every feasible path arriving at the yield: the last in-turn edge for this item is crossed and exactly
+                    # one outgoing += 1 lies between it and the return
+                    arrivals = 0
+                    good = True
+                    why = ""
+                    labels = {}
+                    try:
+                        for kind_, pth, know in sensitive_paths(b, fl, 2):
+                            for i_, bb_ in enumerate(pth):
+                                if bb_ != rb:
+                                    continue
+                                arrivals += 1
+                                last = None
+                                for j in range(i_):
+                                    if pth[j] not in labels:
+                                        labels[pth[j]] = fl.edge_labels(pth[j])
+                                    if any(in_turn(l_) for l_ in labels[pth[j]].get(pth[j + 1], [])):
+                                        last = j
+                                if last is None:
+                                    good = False
+                                    why = "a path yields without the index == outgoing test"
+                                elif sum(1 for x_ in pth[last + 1:i_ + 1] if x_ in inc_sites) != 1:
+                                    good = False
+                                    why = "not exactly one outgoing += 1 between the test and the yield"
+                    except RuntimeError as ex_:
+                        good = False
+                        why = str(ex_)
+                    ok = good and arrivals > 0
+                    det = "%d feasible arrivals; %s" % (arrivals, why or "each crosses index == outgoing and exactly one outgoing += 1")
                 ctx.ob("R4.2", b, "yield-in-turn#%d" % n, ok, b.loc(rb), det)
     ctx.floor("R4.2", "ordered-yield-sites", n, 4)
 
@@ -412,6 +442,17 @@ def r4_3(ctx, R, otypes):
                             a, c = lab[1][2], lab[1][3]
                             if a[0] == "binop" and a[1] == "BitAnd" and c[0] == "const" and a[3] == c and counter_of(ctx, b, a[2], w) == o:
                                 guard_tgt, mask = tgt, c[2]
+                        # (outgoing & C) != 0 is the same test when C has a single bit
+                        if lab[0] == "bool" and lab[1][0] == "binop" and ((lab[1][1] == "Ne" and lab[2] is True) or (lab[1][1] == "Eq" and lab[2] is False)):
+                            a, c = lab[1][2], lab[1][3]
+                            if a[0] == "binop" and a[1] == "BitAnd" and c[0] == "const" and c[2] == "0" and a[3][0] == "const" and \
+                                    counter_of(ctx, b, a[2], w) == o:
+                                try:
+                                    cv = int(a[3][2])
+                                except ValueError:
+                                    cv = 0
+                                if cv > 0 and cv & (cv - 1) == 0:
+                                    guard_tgt, mask = tgt, a[3][2]
             ctx.ob("R4.3", b, "rebase-guard=(outgoing&MSB)==MSB", guard_tgt is not None and mask == str(1 << 63), d_loc(b), "mask %s" % mask)
             if guard_tgt is None:
                 continue
@@ -547,11 +588,16 @@ def r4_4(ctx, R):
     ok = False
     det = ""
     for rb, e in returned_exprs(ctx, cmpb):
+        rev = False
+        while e[0] == "call" and (e[1] or "").endswith("cmp::Ordering::reverse") and e[2]:
+            e = e[2][0]
+            rev = not rev
         if e[0] == "call" and "core::cmp::Ord for usize" in (e[1] or "") or (e[0] == "call" and (e[1] or "").endswith("Ord>::cmp")):
             a, b_ = strip_refs(e[2][0]), strip_refs(e[2][1])
-            ok = a[0] == "proj" and a[2][-1] == ".index" and strip_refs(a[1]) == ("param", 2) and \
-                b_[0] == "proj" and b_[2][-1] == ".index" and strip_refs(b_[1]) == ("param", 1)
-            det = "cmp(%s, %s)" % (expr_str(a), expr_str(b_))
+            first, second = (1, 2) if rev else (2, 1)      # reversed comparison: other before self, or cmp(self, other).reverse()
+            ok = a[0] == "proj" and a[2][-1] == ".index" and strip_refs(a[1]) == ("param", first) and \
+                b_[0] == "proj" and b_[2][-1] == ".index" and strip_refs(b_[1]) == ("param", second)
+            det = "cmp(%s, %s)%s" % (expr_str(a), expr_str(b_), ".reverse()" if rev else "")
     ctx.ob("R4.4", cmpb, "cmp=other.index.cmp(self.index)", ok, d_loc(cmpb), det)
     eqb = ctx.facts.bodies.get("<%s<T> as core::cmp::PartialEq>::eq" % WRAP)
     ok = False
